@@ -95,7 +95,7 @@ pub fn c18_l1_sender_after_sender() {
             assert!(eq_bytes(&enc.to_bytes(), wenc.as_slice()), "encapsulated key depends on an earlier call");
             let suite = rfc::full_suite_id(KEM_ID, KDF_ID, AEAD_ID);
             let sched = rfc::key_schedule::<LinHash>(0, ss.as_slice(), &info[..il], &[], &[], &suite, 16, 12);
-            assert!(spy().news == news0 + 1);
+            assert!(spy().news == news0.wrapping_add(1));
             assert!(eq_bytes(&spy().new_key[..16], sched.key.as_slice()));
             assert!(eq_bytes(ctx.verif_base_nonce(), sched.base_nonce.as_slice()));
             assert!(eq_bytes(ctx.verif_exporter_secret(), sched.exporter_secret.as_slice()));
@@ -139,11 +139,17 @@ pub fn c18_l1_receiver_after_ops() {
         (Ok(ctx), Some(ss)) => {
             let suite = rfc::full_suite_id(KEM_ID, KDF_ID, AEAD_ID);
             let sched = rfc::key_schedule::<LinHash>(0, ss.as_slice(), &info[..il], &[], &[], &suite, 16, 12);
-            assert!(spy().news == news0 + 1);
+            assert!(spy().news == news0.wrapping_add(1));
             assert!(eq_bytes(&spy().new_key[..16], sched.key.as_slice()));
             assert!(eq_bytes(ctx.verif_base_nonce(), sched.base_nonce.as_slice()));
             assert!(eq_bytes(ctx.verif_exporter_secret(), sched.exporter_secret.as_slice()));
             assert!(ctx.verif_seq_state() == (0, false));
+            // and its export (same exporter context and length as the other session used)
+            let mut got = [0u8; 3];
+            let mut want = [0u8; 3];
+            assert!(ctx.export(&[], &mut got).is_ok());
+            assert!(rfc::export::<LinHash>(sched.exporter_secret.as_slice(), &suite, &[], &mut want));
+            assert!(got == want, "export depends on an earlier call");
         }
         (Err(e), None) => assert!(e == HpkeError::DecapError),
         _ => assert!(false, "result depends on an earlier call"),
@@ -203,3 +209,80 @@ pub fn c18_l2_contexts_independent() {
     assert!(out_a1 == out_a2 && out_b1 == out_b2);
     assert!(a1.verif_seq_state() == a2.verif_seq_state() && b1.verif_seq_state() == b2.verif_seq_state());
 }
+
+//@h name=c18_l2_export_two_contexts tier=quick mode=func also=C11 timeout=1200 desc="exports of coexisting contexts do not influence each other: two contexts with different exporter secrets export under the SAME exporter context and length, interleaved and repeated; every value equals the RFC value of its own context (a memo keyed on the exporter context, the length or 'the last call' would be a counterexample)" bounds="both exporter secrets symbolic (possibly equal), exporter context 0..=2 B, L = 5; sender and receiver roles; LinHash; unwind 20"
+#[kani::proof]
+#[kani::unwind(20)]
+#[kani::stub(zeroize::optimization_barrier, noop_barrier)]
+#[kani::stub(hkdf::HkdfExtract::new, crate::fasthkdf::stub_extract_new)]
+#[kani::stub(hkdf::HkdfExtract::input_ikm, crate::fasthkdf::stub_input_ikm)]
+#[kani::stub(hkdf::HkdfExtract::finalize, crate::fasthkdf::stub_finalize)]
+#[kani::stub(hkdf::Hkdf::from_prk, crate::fasthkdf::stub_from_prk)]
+#[kani::stub(hkdf::Hkdf::expand_multi_info, crate::fasthkdf::stub_expand_multi_info)]
+pub fn c18_l2_export_two_contexts() {
+    let ea: [u8; 8] = kani::any();
+    let eb: [u8; 8] = kani::any();
+    let a = ctx_s_from_parts::<SpyAead16, K, M>(&[1; 16], &[2; 12], &ea, 0, false);
+    let b = ctx_r_from_parts::<SpyAead16, K, M>(&[3; 16], &[4; 12], &eb, 7, false);
+    let xc: [u8; 2] = kani::any();
+    let xl = any_len(2);
+    let suite = rfc::full_suite_id(KEM_ID, KDF_ID, AEAD_ID);
+    let mut wa = [0u8; 5];
+    let mut wb = [0u8; 5];
+    assert!(rfc::export::<LinHash>(&ea, &suite, &xc[..xl], &mut wa));
+    assert!(rfc::export::<LinHash>(&eb, &suite, &xc[..xl], &mut wb));
+    let mut o1 = [0u8; 5];
+    let mut o2 = [0u8; 5];
+    let mut o3 = [0u8; 5];
+    let mut o4 = [0u8; 5];
+    a.export(&xc[..xl], &mut o1).unwrap();
+    b.export(&xc[..xl], &mut o2).unwrap();
+    a.export(&xc[..xl], &mut o3).unwrap();
+    b.export(&xc[..xl], &mut o4).unwrap();
+    assert!(o1 == wa, "first export of A");
+    assert!(o2 == wb, "export of B after A exported the same context string");
+    assert!(o3 == wa, "A again");
+    assert!(o4 == wb, "B again");
+}
+
+//@h name=c18_l2_receivers_independent tier=quick mode=func also=C05 timeout=1200 desc="two coexisting receiver contexts: opening (successfully or not) on one leaves the other's position untouched and the other's next nonce is still its own base nonce XOR its own counter" bounds="both contexts' key/base nonce/seq symbolic; AEAD verdicts symbolic; 2-byte messages; unwind 20"
+#[kani::proof]
+#[kani::unwind(20)]
+#[kani::stub(zeroize::optimization_barrier, noop_barrier)]
+pub fn c18_l2_receivers_independent() {
+    let ka: [u8; 16] = kani::any();
+    let na: [u8; 12] = kani::any();
+    let sa: u64 = kani::any();
+    let kb: [u8; 16] = kani::any();
+    let nb: [u8; 12] = kani::any();
+    let sb: u64 = kani::any();
+    let mut a = ctx_r_from_parts::<SpyAead16, K, M>(&ka, &na, &[0; 8], sa, false);
+    let mut b = ctx_r_from_parts::<SpyAead16, K, M>(&kb, &nb, &[0; 8], sb, false);
+    let tag = AeadTag::<SpyAead16>::from_bytes(&[5u8; 16]).unwrap();
+    let mut buf: [u8; 2] = kani::any();
+    let va: bool = kani::any();
+    spy().dec_ok = va;
+    let ra = a.open_in_place_detached(&mut buf, &[], &tag);
+    assert!(ra.is_ok() == va);
+    assert!(spy().last.nonce == rfc::compute_nonce::<12>(&na, sa));
+    assert!(b.verif_seq_state() == (sb, false), "an open on A moved B");
+    let vb: bool = kani::any();
+    spy().dec_ok = vb;
+    let rb = b.open_in_place_detached(&mut buf, &[], &tag);
+    assert!(rb.is_ok() == vb);
+    assert!(spy().last.nonce == rfc::compute_nonce::<12>(&nb, sb), "B's nonce depends on A's history");
+    assert!(spy().last.key[..16] == kb[..]);
+    let ea = if va && sa != u64::MAX { sa + 1 } else { sa };
+    assert!(a.verif_seq_state().0 == ea);
+}
+
+// ---- L4: the same lemmas with EVERY mutable static starting from an arbitrary value ----------------
+// (CBMC --nondet-static).  hpke has no mutable statics, so on the real tree this changes nothing; a
+// hidden global cache, counter or memo (whatever its period or key) starts in an arbitrary state, i.e.
+// after an arbitrary earlier history of library calls in this process, and a result that depends on it
+// differs from the RFC function of the explicit arguments.
+//@h name=c18_l4_static_sender fn=c18_l1_sender_after_sender cbmc=--nondet-static tier=quick mode=func timeout=2400 desc="c18_l1_sender_after_sender with every mutable static of the program (hpke, dependencies, models) initialised to an ARBITRARY value: sender setup still draws exactly Nsk RNG bytes and yields the RFC 9180 enc / key / nonce / exporter secret of its own arguments" bounds="as c18_l1_sender_after_sender, plus all statics nondeterministic"
+//@h name=c18_l4_static_receiver fn=c18_l1_receiver_after_ops cbmc=--nondet-static tier=quick mode=func timeout=2400 desc="c18_l1_receiver_after_ops (receiver setup, opens, export) under arbitrary initial statics" bounds="as c18_l1_receiver_after_ops, plus all statics nondeterministic"
+//@h name=c18_l4_static_export fn=c18_l2_export_two_contexts cbmc=--nondet-static tier=quick mode=func also=C11 timeout=1200 desc="c18_l2_export_two_contexts under arbitrary initial statics: a global export cache or memo in ANY state cannot change an exported value" bounds="as c18_l2_export_two_contexts, plus all statics nondeterministic"
+//@h name=c18_l4_static_seal fn=c18_l2_contexts_independent cbmc=--nondet-static tier=quick mode=func timeout=2400 desc="c18_l2_contexts_independent (seal on coexisting contexts) under arbitrary initial statics" bounds="as c18_l2_contexts_independent, plus all statics nondeterministic"
+//@h name=c18_l4_static_open fn=c18_l2_receivers_independent cbmc=--nondet-static tier=quick mode=func timeout=1200 desc="c18_l2_receivers_independent (open on coexisting contexts) under arbitrary initial statics" bounds="as c18_l2_receivers_independent, plus all statics nondeterministic"
